@@ -14,9 +14,9 @@ CHECK = dict(
                 "Genus consistent), every input vertex position == some vertex used by a result triangle, tolerance >= epsilon; without tangents also "
                 "NumTri == n^2 NumTri, Volume/SurfaceArea (library getters and oracle sums) within 100*epsilon*scale^k, equal integer winding number at "
                 "all sample points farther than 1e-6*scale from the input; with tangents every used vertex of Refine(n) is within 1e-9*scale of a vertex "
-                "of Refine(2n). Simplify: lattice boxes, L- and U-solids after Refine(2|3[|4]).AsOriginal() and all unions of two face-adjacent lattice boxes "
+                "of Refine(2n). Simplify: lattice boxes, L- and U-solids after Refine(2|3|4).AsOriginal() (Refine(8) on four of them) and all unions of two face-adjacent lattice boxes "
                 "(with and without AsOriginal) x {Simplify(t), SetTolerance(t)} x t in {0,1e-9,.01,.1}: C01 topology, triangle count does not grow, result "
-                "vertices are input vertices, every result vertex within max(t, input tolerance, 1e-12) of the input surface and vice versa (exact "
+                "vertices are input vertices (1e-12), every result vertex within max(t, input tolerance, 1e-12) of the input surface and vice versa (exact "
                 "point-triangle distance), equal winding number on a quarter-offset lattice, GetTolerance()==max(t,GetEpsilon()) after SetTolerance, "
                 "unchanged after Simplify, never below GetEpsilon()."),
     level_note=("Trusted: compiler, ASan/UBSan, lib/topo.h, lib/solid.h, ~120 lines of pattern oracle in harness/C19.cpp. Bound: N=10, M=5 (quick), N=20, M=8 "
@@ -31,9 +31,9 @@ CHECK = dict(
           "with more triangles than the input, simplify results with fewer triangles than the input."),
     bounds=dict(
         quick=("1000 triples, 625 quadruples; 21 seeds x 2 x 9 x 9 = 3402 refine cases, 49 Boolean inputs x 9 x 9 = 3969; 6^3 winding samples; simplify: 27 "
-               "boxes of [0,2]^3 + L,L2,U,U2 x Refine(2|3), 147 adjacent pairs x 2 -> 356 inputs x 2 x 4 = 2848 cases"),
+               "boxes of [0,2]^3 + L,L2,U,U2 x Refine(2|3|4), Refine(8) on 4 of them, 147 adjacent pairs x 2 -> 391 inputs x 2 x 4 = 3128 cases"),
         thorough=("8000 triples, 4096 quadruples; the same refine pool with 9^3 samples, 193 Boolean inputs (15633 cases); simplify: 216 boxes of [0,3]^3 + L,L2,U,U2 "
-                  "x Refine(2|3|4) and all face-adjacent pairs of those boxes x 2")),
+                  "x Refine(2|3|4), Refine(8) on 4 of them, and all face-adjacent pairs of those boxes x 2 (135k cases)")),
     assumptions=COMMON_ASSUME + [
         "sample points closer than 1e-6*scale to the input surface are not judged (refine); simplify samples are 0.25 from every lattice plane",
         "'within epsilon' for Volume/SurfaceArea is read as 100*max(GetEpsilon)*scale^2 resp. *scale",
